@@ -74,7 +74,18 @@ def _invariants(cs, where):
         rt.require(not (c.dead and c.has_lock), 'c13:dead-holder', f'{where}: dropped connection {c.i} owns the lock')
 
 
-def body(n, k, sel):
+NAMES = ['client', '', None]  # what a client may give as its name in the acquire request
+
+
+def body(n, k, sel, nm=None):
+    names = []
+    for i in range(n):
+        j = 0
+        if nm is not None and i < len(nm):
+            for j in range(len(NAMES)):
+                if nm[i] == j:
+                    break
+        names.append(f'client{i}' if j == 0 else NAMES[j])
     with rt.island():
         REACTOR.reset()
         del FakeLoopingCall.instances[:]
@@ -102,16 +113,16 @@ def body(n, k, sel):
                 if kind == 0:  # ACQUIRE (one per connection: comms.acquire)
                     if c.acquired or c.dead:
                         return
-                    rt.note(f'ACQUIRE c{c.i}')
-                    free = not dawgie.context.db_lock
+                    rt.note(f'ACQUIRE c{c.i} as {names[c.i]!r}')
+                    free = not any(x.has_lock for x in cs)
                     c.acquired = True
-                    c.w.dataReceived(_frame(comms.COMMAND(Func.acquire, None, None, f'client{c.i}')))
+                    c.w.dataReceived(_frame(comms.COMMAND(Func.acquire, None, None, names[c.i])))
                     _told(c, cs, free, 'ACQUIRE')
                 elif kind == 1:  # POLL: one tick of the looping call
                     if not c.lc.running:
                         return
                     rt.note(f'POLL c{c.i}')
-                    free = not dawgie.context.db_lock
+                    free = not any(x.has_lock for x in cs)
                     waiter = not c.dead and not c.told_unlock
                     owners = [x.i for x in cs if x.has_lock]
                     c.lc.tick()
@@ -174,7 +185,7 @@ INFO = {
     'rule': 'one case = one event history; non-trivial = a grant, release or disconnect was observed on it',
     'functions': ['db.shelve.comms.Worker.dataReceived', 'Worker.do', 'Worker._do_acquire', 'Worker._do_release', 'Worker.connectionLost',
                   'Worker._lock_db/_unlock_db', 'context.lock_db', 'context.unlock_db', 'db.lockview.TaskLockEngine.add_task'],
-    'bounds': {'quick': '2 clients, histories of <=8 events', 'thorough': '2 clients <=10 events; 3 clients <=7 events'},
+    'bounds': {'quick': '2 clients, histories of <=8 events; the name each client gives in its acquire request is a solver variable over {a regular name, empty string, None}', 'thorough': '2 clients <=10 events; 3 clients <=7 events; names as in quick'},
     'assumptions': [
         'twisted LoopingCall / reactor.callLater replaced by fakes: start() runs the first tick at once (Twisted default now=True), later ticks and timers fire when the schedule says',
         'one acquire per connection and a release only after being told the lock is held (what comms.acquire/release do)',
@@ -192,16 +203,14 @@ def obligations(tier):
         nev = 4 * n + 1
         fix = 2
         free = [f'e{i}' for i in range(fix, k)]
-        sig = ', '.join(f'{v}: int' for v in free)
-        pre = [' and '.join(f'0 <= {v} < {nev}' for v in free)]
-        for a in range(nev):
+        nms = ['nm1']  # the first client's name is a literal partition, the second's a variable, a third client has a regular name
+        sig = ', '.join(f'{v}: int' for v in nms + free)
+        pre = [' and '.join([f'0 <= {v} < {len(NAMES)}' for v in nms] + [f'0 <= {v} < {nev}' for v in free])]
+        for nm0 in range(len(NAMES)):
             for b in range(nev):
-                if a % 4 != 0 or a == 4 * n:
-                    continue  # the first event is necessarily an ACQUIRE
-                if a != 0:
-                    continue  # symmetry: client 0 acquires first
-                out.append(ob.make(f'n{n}-k{k}-{a}.{b}', f'n{n}', 'vp.harness.c13:body', sig, pre,
-                                   f"{{'n': {n}, 'k': {k}, 'sel': [{a}, {b}, {', '.join(free)}]}}", timeout=900 if tier == 'quick' else 3000))
+                # the first event is necessarily an ACQUIRE; symmetry: client 0 acquires first
+                out.append(ob.make(f'n{n}-k{k}-name{nm0}-0.{b}', f'n{n}', 'vp.harness.c13:body', sig, pre,
+                                   f"{{'n': {n}, 'k': {k}, 'sel': [0, {b}, {', '.join(free)}], 'nm': [{nm0}, {', '.join(nms)}]}}", timeout=900 if tier == 'quick' else 3000))
         allv = [f'e{i}' for i in range(k)]
         out.append(ob.make(f'n{n}-k{k}', f'n{n}', 'vp.harness.c13:body', ', '.join(f'{v}: int' for v in allv),
                            [' and '.join(f'0 <= {v} < {nev}' for v in allv)], f"{{'n': {n}, 'k': {k}, 'sel': [{', '.join(allv)}]}}", timeout=300, twin=True))
